@@ -79,6 +79,23 @@ func c12Ops() []roOp {
 				it.GetID(), it.GetType(), it.GetLink(), it.IsObject(), it.IsLink(), it.IsCollection())
 		}},
 		{"DerefItem", func(it, _ ap.Item) string { return fmt.Sprint(len(ap.DerefItem(it))) }},
+		{"lists: DerefItem/IsNil/Contains/Count/IRIs/encoders", func(it, _ ap.Item) string {
+			var b strings.Builder
+			_ = ap.OnObject(it, func(o *ap.Object) error {
+				for _, l := range []ap.ItemCollection{o.To, o.CC, o.Bto, o.BCC, o.Tag, o.Audience} {
+					if l == nil {
+						continue
+					}
+					j, _ := l.MarshalJSON()
+					fmt.Fprint(&b, len(ap.DerefItem(l)), len(ap.DerefItem(&l)), ap.IsNil(l), ap.IsItemCollection(l), l.Contains(ap.PublicNS), l.Count(), len(l.IRIs()),
+						string(j), ap.ItemsEqual(l, l), l.GetLink(), l.IsCollection(), ";")
+					_ = ap.OnItemCollection(l, func(c *ap.ItemCollection) error { fmt.Fprint(&b, len(*c)); return nil })
+					_ = ap.OnCollectionIntf(l, func(c ap.CollectionInterface) error { fmt.Fprint(&b, c.Count()); return nil })
+				}
+				return nil
+			})
+			return b.String()
+		}},
 		{"On*(read)", func(it, _ ap.Item) string {
 			var b strings.Builder
 			_ = ap.OnObject(it, func(o *ap.Object) error { fmt.Fprint(&b, "O:", o.ID, len(o.Name), len(o.To)); return nil })
@@ -280,6 +297,18 @@ func c12Value(c *Ctx, cfg *GenCfg) (T, ap.Item) {
 	typ := allGoTypes[c.R.Intn(len(allGoTypes))]
 	tr := cfg.genNode(c.R, typ, cfg.MaxDepth, false)
 	tr["ptr"] = true
+	// nil-like members of other kinds in the lists: the empty IRI and the "-" IRI
+	if f, ok := tr["f"].(T); ok {
+		for _, name := range []string{"To", "Tag", "CC"} {
+			if lm, ok := f[name].(T); ok && c.R.Chance(50) {
+				l := asList(lm["list"])
+				pos := c.R.Intn(len(l) + 1)
+				blank := T{"iri": []string{"", "-"}[c.R.Intn(2)]}
+				l = append(l[:pos], append([]interface{}{blank}, l[pos:]...)...)
+				lm["list"] = l
+			}
+		}
+	}
 	it := buildItem(tr)
 	plantCapacity(it)
 	return tr, it
@@ -295,7 +324,8 @@ func init() {
 	campaigns["C12"] = func(c *Ctx) {
 		ops := c12Ops()
 		c.Rule = fmt.Sprintf("values generated type-directed over the whole vocabulary (depth <= 2, text with escapes, multi-language values, lists, sub-records), rebuilt so that EVERY slice (item lists, byte strings, language-value lists, IRI lists) has 3 spare slots of capacity planted with sentinels. (1) For each of %d read-only operations (package and method encoders in both codecs, MarshalBinary, ItemsEqual with itself and with another value in both orders, Format with four verbs, all inspectors, DerefItem, On* views that only read, To* conversions, the language-value readers, Contains/Count/IRIs/First): a deep snapshot before and after — every byte of every byte string up to its capacity, every slice header (pointer, len, cap), every element up to capacity, pointer identities — must be identical, and a second call must return the same result. (2) The same operations from 8 goroutines on one shared value, while 2 more decode unrelated documents: every result equals the sequential one and the value is unchanged afterwards; the thorough tier runs this under the Go race detector in a separate -race build.", len(ops))
-		cfg := &GenCfg{MaxDepth: 2, Density: 20, Zones: true, Nanos: true, ValueNodes: false, Links: true, EmptyTypes: true, Negatives: true, MultiLang: true, RepeatLang: true}
+		cfg := &GenCfg{MaxDepth: 2, Density: 20, Zones: true, Nanos: true, ValueNodes: false, Links: true, EmptyTypes: true, Negatives: true, MultiLang: true, RepeatLang: true,
+			NilMembers: true, Force: map[string]bool{"To": true, "Tag": true}, ForcePct: 60}
 		texts = append(texts, "C:\\new \"q\" \n\t<b>&</b> \u2028 😀", "\\u0041\\n") // escapes exercise the escaper's copy paths
 		n := c.N(250, 6000)
 		for i := 0; i < n; i++ {
